@@ -326,8 +326,13 @@ impl Operator for QuantizeLinear {
     }
 
     fn output_types(&self, _ctx: &OutputTypesContext) -> Option<OutputTypeList> {
-        let dtype = self.output_dtype.unwrap_or(DataType::Int8);
-        Some([OutputType::Fixed(ValueType::Tensor(dtype))].into())
+        // Without an `output_dtype` attribute, the output has the same type as
+        // the zero point input.
+        let output_type = match self.output_dtype {
+            Some(dtype) => OutputType::Fixed(ValueType::Tensor(dtype)),
+            None => OutputType::CopyFromInput(2),
+        };
+        Some([output_type].into())
     }
 
     fn as_infer_shapes(&self) -> Option<&dyn InferShapes> {
@@ -700,6 +705,34 @@ mod tests {
                 _ => panic!("unsupported quantized type"),
             };
         })
+    }
+
+    #[test]
+    fn test_quantize_linear_output_types() {
+        use super::QuantizeLinear;
+        use crate::operator::{Operator, OutputType, OutputTypesContext};
+        use crate::value::{DataType, ValueType};
+
+        let ctx = OutputTypesContext { num_outputs: 1 };
+
+        // With an `output_dtype` attribute the output type is fixed.
+        let op = QuantizeLinear {
+            axis: 1,
+            output_dtype: Some(DataType::UInt8),
+        };
+        let types = op.output_types(&ctx).unwrap();
+        assert!(matches!(
+            types[..],
+            [OutputType::Fixed(ValueType::Tensor(DataType::UInt8))]
+        ));
+
+        // Otherwise the output type is that of the zero point.
+        let op = QuantizeLinear {
+            axis: 1,
+            output_dtype: None,
+        };
+        let types = op.output_types(&ctx).unwrap();
+        assert!(matches!(types[..], [OutputType::CopyFromInput(2)]));
     }
 
     #[test]
